@@ -116,7 +116,7 @@ def run_frames(tier, rng, viol, cov):
         if c["outs"]:
             bad = json.loads(json.dumps(c))
             bad["outs"][-1][0][0] ^= 1
-            neg.append(len(cases))
+            neg.append((len(cases), k))
             cases.append(bad)
     wd = lib.workdir("C74", "frames")
     (wd / "cases.json").write_text(json.dumps(cases))
@@ -141,8 +141,9 @@ def run_frames(tier, rng, viol, cov):
                                   detail=f"commute_clifford_op {kind} {g} on wires {w}: frame {cases[k]['f']} -> {cases[k]['outs']} "
                                          f"exc={cases[k]['exc']!r}: {clause} (exact C P C^dagger differs)",
                                   replay={"case": cases[k]}))
+    neg = [k for k, src in neg if verd[src][0].startswith("ok")]     # controls derived from accepted records only
     nneg = sum(1 for k in neg if not verd[k][0].startswith("ok"))
-    if not neg or nneg != len(neg):
+    if (not neg and not viol) or nneg != len(neg):
         raise lib.MachineryError(f"frame negative controls: {nneg} of {len(neg)} rejected")
     cov["frames"] = {"register_wires": nw, "model_states": r.distinct, "model_transitions": r.generated,
                      "invariants": ["Sound (C P C^dagger = c P')", "Unique", "Linear"],
@@ -322,13 +323,13 @@ def run_conversion(tier, rng, viol, cov):
             c = cases[k]
             idx = [i for i, ins in enumerate(c["ops"]) if ins.get("g") == "COND" and ins["op"]["g"] in ("PauliX", "PauliZ")]
             if idx:
-                neg.append((len(cases), "some"))
+                neg.append((len(cases), "some", k))
                 cases.append(dict(c, ops=c["ops"][:idx[-1]] + c["ops"][idx[-1] + 1:]))
-                neg.append((len(cases), "all"))
+                neg.append((len(cases), "all", k))
                 cases.append(dict(c, ref=c["ref"] + [rec("RX", [1], [1])]))
-        if m["kind"] == "offline" and m["sensitive"] and sum(1 for _, t in neg if t == "off") < 4:
+        if m["kind"] == "offline" and m["sensitive"] and sum(1 for _, t, _s in neg if t == "off") < 4:
             c = cases[k]
-            neg.append((len(cases), "off"))
+            neg.append((len(cases), "off", k))
             cases.append(dict(c, ops=c["ops"] + [rec("PauliX", [c["outs"][0]])]))
     wd = lib.workdir("C74", "mbqc")
     (wd / "cases.json").write_text(json.dumps(cases))
@@ -367,13 +368,15 @@ def run_conversion(tier, rng, viol, cov):
             samples.append({"circuit": m["circuit"], "variant": m["variant"], "kind": m["kind"], "measurements": m["nmeas"],
                             "register_wires": cases[k]["n"], "instructions": len(cases[k]["ops"]), "branches_ok": len(ls)})
     nneg = 0
-    for idx, kind in neg:
+    for idx, kind, src in neg:
+        if any(c != "ok" for c in leaves.get(src, ["missing"])):
+            continue        # derived from a case that is itself rejected: corrupting a wrong record proves nothing
         ls = leaves.get(idx, [])
         rej = [c for c in ls if c != "ok"]
         if not rej or (kind == "all" and len(rej) != len(ls)):
             raise lib.MachineryError(f"conversion negative control ({kind}) accepted: {len(rej)} of {len(ls)} leaves rejected")
         nneg += 1
-    if nneg == 0:
+    if nneg == 0 and not viol:
         raise lib.MachineryError("no conversion negative control")
     if n_off_sensitive == 0:
         raise lib.MachineryError("offline family is vacuous: no biased output distribution")
